@@ -631,7 +631,14 @@ pub trait BrokerOperations<O: BrokerOrder, Q: BrokerQuote>:
                     //Cannot be called without quote existing so unwrap
                     let quote = self.get_quote(&ticker).unwrap();
                     let price = quote.get_bid();
-                    let shares_req = (total_sold / price).ceil();
+                    let mut shares_req = (total_sold / price).ceil();
+                    //A position holding a fraction of a share can be smaller than the rounded-up
+                    //share count, selling the whole position still raises more than is required
+                    if let Some(qty) = self.get_position_qty(&ticker) {
+                        if shares_req > qty {
+                            shares_req = qty;
+                        }
+                    }
                     let order = O::market_sell(ticker, shares_req);
                     info!("BROKER: Withdrawing {:?} with liquidation, queueing sale of {:?} shares of {:?}", cash, order.get_shares(), order.get_symbol());
                     sell_orders.push(order);
